@@ -1,4 +1,4 @@
-(* C07 driver.  Scenario:  <mode> <tbd> <ntests> { <before> <setup> <body> <teardown> } <tail>
+(* C07 driver.  Scenario:  <mode> <tbd> <pre> <ntests> { <before> <ipre> <setup> <body> <teardown> <ipost> } <tail>
      list ::= <n> stmt*n      stmt ::= :a id size kind | :f id | :x | :e n | :i
    (mode = how the harness reaches the detector -- 0 local detector handed to the plugin, 1 the global detector through
     new / new [] / malloc -- it does not exist in the model: the observation has to be the same for both).
@@ -15,11 +15,13 @@ let scenario ts =
   let c = { rest = ts } in
   let _mode = next c in
   let tbd = n_tok (next c) in
-  let tests = counted c (fun c -> let b = counted c stmt in let s = counted c stmt in let bo = counted c stmt in let td = counted c stmt in
-                                  { t_before = b; t_setup = s; t_body = bo; t_teardown = td }) in
+  let pre = counted c stmt in
+  let tests = counted c (fun c -> let b = counted c stmt in let ip = counted c stmt in let s = counted c stmt in let bo = counted c stmt in
+                                  let td = counted c stmt in let ipo = counted c stmt in
+                                  { t_before = b; t_ipre = ip; t_setup = s; t_body = bo; t_teardown = td; t_ipost = ipo }) in
   let tail = counted c stmt in
   if not (at_end c) then raise (Bad "trailing tokens");
-  { s_tests = tests; s_tail = tail; s_tbd = tbd }
+  { s_pre = pre; s_tests = tests; s_tail = tail; s_tbd = tbd }
 let key (a, b) = (int_of_n a, int_of_n b)
 let pents es =
   let es = List.sort (fun x y -> compare (key x) (key y)) es in
